@@ -30,6 +30,9 @@ ORACLES = {
     "O_fs": "the included text is Path.read_text of the argument (corr: recorded nested_render_text text of include docs)",
     "O_jinja": "a substitution value without template syntax is rendered verbatim (corr: recorded text of substitution docs)",
     "O_splitlines": "str.splitlines = Lines.splitlines (corr: model vs Python on strings over all separators)",
+    "O_env_shared": "every nested parse (include, directive body, substitution) receives the SAME md_env object: state a nested "
+                    "parse creates - also the first 'references' entry of the whole document - persists for every later one "
+                    "(C06_registries_shared; corr/search: chains of wrappers with definitions inside k and uses inside j>k)",
     "O_other_directives": "directives other than admonitions/include only see (name, arguments, options, body, offset, "
                           "position, registries) (metamorphic pairs with nested code-block/unknown directives)",
 }
@@ -501,6 +504,16 @@ def corr(ctx):
         model_tests(ctx)
     oracle_tests(ctx)
     rng = ctx.rng
+    for i in range(ctx.budget(150, 1500, 1500)):
+        case = gen_chain(rng)
+        ok, sig, what, exp, obs = eval_chain(case)
+        ctx.corr_cases += 1
+        ctx.count("chain:" + ("own-refdef" if case["own_top"] else "no-own-refdef") + (":ok" if ok else ":differs"))
+        ctx.nontriv(("chain", repr(case["segs"])))
+        if i == 0:
+            ctx.sample({"chain_wrapped": chain_docs(case)[0]})
+        if not ok and len(ctx.disagreements) < 40:
+            ctx.disagree("chain of nested parses (definitions inside k, uses inside j>k): " + str(what), case, obs, exp)
     n = ctx.budget(500, 6000, 6000)
     for i in range(n):
         case = gen_case(rng)
@@ -518,6 +531,11 @@ def corr(ctx):
 # ------------------------------------------------------------------ direct property oracle
 
 def check_case(ctx, case):
+    if case.get("chain"):
+        ok, sig, what, exp, obs = eval_chain(case)
+        if not ok:
+            ctx.fail(sig, case, what, expected=exp, observed=obs)
+        return ok
     if case.get("usability"):
         return check_usability(ctx, case)
     if case.get("outside_in"):
@@ -603,6 +621,118 @@ def check_heading_offset(ctx, case):
     return True
 
 
+# ---- definitions introduced inside wrapper k, used inside a LATER nested parse j > k ----
+# All nested parses share one markdown-it env (and the document registries): whatever a nested parse adds -
+# also the very first reference definition of the whole document - is there for every later one.
+
+def gen_chain(rng):
+    own_top = rng.random() < 0.5
+    nseg = rng.randint(2, 4)
+    segs, defs, n = [], [], 0          # defs: (kind, label, toplevel_in_place)
+    for si in range(nseg):
+        kind = rng.choice(["include", "include", "subst", "note", "note-include"])
+        lines = []
+        n += 1
+        lines.append(f"filler{n} " + G.words(rng, 1, 3))
+        # uses of earlier definitions (the first segment has none)
+        usable = [d for d in defs]
+        rng.shuffle(usable)
+        for (dk, lab, top_in_place) in usable[:rng.randint(0, 3)]:
+            if dk == "refdef" and kind in ("include", "subst") and not top_in_place:
+                continue        # pasted at top level it would be an outer use of an inner definition (known finding)
+            n += 1
+            use = {"refdef": f"[go{n}][{lab}]", "footnote": f"fnuse{n}[^{lab}]", "target": f"[tg{n}](#{lab})"}[dk]
+            lines += ["", f"use{n} {use} end"]
+        if own_top and rng.random() < 0.4:
+            n += 1
+            lines += ["", f"use{n} [go{n}][own] end"]
+        # new definitions
+        for dk in rng.sample(["refdef", "footnote", "target"], rng.randint(0 if si else 1, 3)):
+            n += 1
+            lab = {"refdef": "home", "footnote": "fn", "target": "tg"}[dk] + str(n)
+            lines += [""] + {"refdef": [f"[{lab}]: https://{lab}.example.org/p"],
+                             "footnote": [f"[^{lab}]: note {lab}"],
+                             "target": [f"({lab})=", f"target para {lab}"]}[dk]
+            defs.append((dk, lab, kind in ("include", "subst")))
+        segs.append({"kind": kind, "lines": lines})
+        if rng.random() < 0.3:
+            fts = [d for d in defs if d[0] != "refdef"]
+            if fts:
+                dk, lab, _ = rng.choice(fts)
+                n += 1
+                segs.append({"kind": "top", "lines": [f"outer{n} " + ({"footnote": f"x[^{lab}]", "target": f"[t](#{lab})"}[dk])]})
+    return {"chain": True, "own_top": own_top, "segs": segs}
+
+
+def chain_docs(case):
+    """-> (wrapped lines, in-place lines, files, substitutions)"""
+    wrapped, plain, files, subs = [], [], {}, {}
+    if case["own_top"]:
+        head = ["[own]: https://own.example.org/p", "", "top [o][own] paragraph", ""]
+        wrapped += head
+        plain += head
+    for i, seg in enumerate(case["segs"]):
+        k, lines = seg["kind"], seg["lines"]
+        if k == "include":
+            files[f"seg{i}.md"] = "\n".join(lines) + "\n"
+            wrapped += [f"```{{include}} seg{i}.md", "```", ""]
+            plain += lines + [""]
+        elif k == "subst":
+            subs[f"seg{i}"] = "\n".join(lines)
+            wrapped += ["{{seg%d}}" % i, ""]
+            plain += lines + [""]
+        elif k == "note":
+            wrapped += ["````{note}"] + lines + ["````", ""]
+            plain += ["````{note}"] + lines + ["````", ""]
+        elif k == "note-include":
+            files[f"seg{i}.md"] = "\n".join(lines) + "\n"
+            wrapped += ["````{note}", f"```{{include}} seg{i}.md", "```", "````", ""]
+            plain += ["````{note}"] + lines + ["````", ""]
+        else:
+            wrapped += lines + [""]
+            plain += lines + [""]
+    return wrapped, plain, files, subs
+
+
+def eval_chain(case):
+    from docutils import nodes
+    from lib.impl import scratch_dir
+    wrapped, plain, files, subs = chain_docs(case)
+    try:
+        with scratch_dir() as d:
+            for name, content in files.items():
+                with open(os.path.join(d, name), "w", encoding="utf8") as f:
+                    f.write(content)
+            src = os.path.join(d, "main.md")
+            st = {"myst_substitutions": subs}
+            dw, _ = parse("\n".join(wrapped) + "\n", st, source_path=src)
+            dp, _ = parse("\n".join(plain) + "\n", st, source_path=src)
+    except Exception as e:
+        return False, f"exception:{type(e).__name__}:chain", f"rendering raised {e!r}", None, repr(e)
+    # direct reading: every use of a reference definition inside a later nested parse is a resolved link
+    import re as _re
+    for seg in case["segs"]:
+        if seg["kind"] == "top":
+            continue
+        for l in seg["lines"]:
+            m = _re.match(r"use\d+ \[(go\d+)\]\[(\w+)\] end", l)
+            if not m:
+                continue
+            text, lab = m.group(1), m.group(2)
+            refs = [r for r in dw.findall(nodes.reference) if r.astext() == text]
+            if not refs or refs[0].get("refuri") != f"https://{lab}.example.org/p":
+                para = [p for p in dw.findall(nodes.paragraph) if text in p.astext()]
+                return (False, "refdef:inner-definition-not-usable-in-later-nested-parse",
+                        f"[{text}][{lab}] inside a {seg['kind']} is not resolved although [{lab}] was defined in an earlier "
+                        f"nested parse (own top-level refdef: {case['own_top']})",
+                        f"reference refuri=https://{lab}.example.org/p", para[0].pformat() if para else None)
+    a, b = [canon(c) for c in dw.children], [canon(c) for c in dp.children]
+    if a != b:
+        return False, "transparent:chain", "document with include/substitution differs from the text pasted in place: " \
+            + str(first_diff(a, b)), show(b), show(a)
+    return True, None, None, None, None
+
+
 def usability_doc(kind, what, where):
     """a document with a definition of [what] inside wrapper [kind] and a use outside, [where] = before/after"""
     defs = {"footnote": "[^fn1]: the note text", "target": "(tgt1)=\ninner paragraph", "refdef": "[ref1]: https://ref.example.org/x"}
@@ -679,6 +809,21 @@ def search(ctx):
         ctx.count("heading-offset")
         check_case(ctx, {"heading_offset": True, "k": k})
     rng = ctx.rng
+    # definitions made inside one nested parse, used inside a later one; fixed minimal cases first
+    for own in (False, True):
+        for first in ("include", "note", "subst"):
+            for later in ("note", "include", "note-include", "subst"):
+                if later in ("include", "subst") and first == "note":
+                    continue
+                segs = [{"kind": first, "lines": ["filler1 a", "", "[home1]: https://home1.example.org/p", "", "[^fn1]: note fn1"]},
+                        {"kind": later, "lines": ["filler2 b", "", "use2 [go2][home1] end", "", "use3 fnuse3[^fn1] end"]}]
+                ctx.search_cases += 1
+                ctx.count("chain:fixed")
+                check_case(ctx, {"chain": True, "own_top": own, "segs": segs})
+    for i in range(ctx.budget(250, 3000, 2000)):
+        ctx.search_cases += 1
+        ctx.count("chain:generated")
+        check_case(ctx, gen_chain(rng))
     n = ctx.budget(700, 9000, 5000)
     nfail = 0
     for i in range(n):
